@@ -16,7 +16,7 @@ from props.repro_common import Doc, Seg, gen_body, mini_parse_field, parse, norm
 
 ID = "C11"
 LEVEL = "exploration"
-TIERS = {"quick": {"runs": 16000, "wall": 150}, "thorough": {"runs": 800000, "wall": 1500}}
+TIERS = {"quick": {"runs": 60000, "wall": 150}, "thorough": {"runs": 800000, "wall": 1500}}
 RULE = ("world = seeded paragraph(s) with 2..5 fields, 1..3 of them list fields produced by a "
         "layout grammar (values, separators = blanks/tabs/newlines or commas with arbitrary "
         "surrounding blanks, leading/trailing/double separators, space or tab continuation "
